@@ -135,7 +135,7 @@ type vInner struct {
 var vCELRules = []string{"true", "false", "has(self.status)"}
 
 type vProbeSpec struct {
-	kindSel  int // 0 none, 1 apps/Deployment, 2 apps/StatefulSet
+	kindSel  int // 0 none, 1 apps/Deployment, 2 apps/StatefulSet, 3 (core)/Deployment
 	labelSel int // 0 none, 1 matchLabels app=a, 2 matchExpressions app In (a), 3 matchExpressions app Exists, 4 app=a and app NotIn (b)
 	inner    []vInner
 }
@@ -148,8 +148,11 @@ func vDrawProbes() ([]corev1alpha1.ObjectSetProbe, []vProbeSpec) {
 		p := "probe" + strconv.Itoa(k)
 		var sp vProbeSpec
 		var osp corev1alpha1.ObjectSetProbe
-		sp.kindSel = verifrt.IntRange(p+".kindSelector", 0, 2)
+		sp.kindSel = verifrt.IntRange(p+".kindSelector", 0, 2+verifrt.Bound("withExpressions", 0))
 		switch sp.kindSel {
+		case 3:
+			// the core group's kind of the same name selects nothing in the apps group
+			osp.Selector.Kind = &corev1alpha1.PackageProbeKindSpec{Group: "", Kind: "Deployment"}
 		case 1:
 			osp.Selector.Kind = &corev1alpha1.PackageProbeKindSpec{Group: "apps", Kind: "Deployment"}
 		case 2:
@@ -206,6 +209,8 @@ func (s *vObjState) selectedBy(p vProbeSpec) bool {
 		k = s.kind == "Deployment"
 	case 2:
 		k = s.kind == "StatefulSet"
+	case 3:
+		k = false
 	}
 	l := true
 	switch p.labelSel {
